@@ -78,7 +78,7 @@ func summarise(h *histRun, o *invObs) {
 			} else {
 				o.ErrByKind[t.Kind]++
 				if _, ok := o.ErrSample[t.Kind]; !ok {
-					o.ErrSample[t.Kind] = t.Log + t.Direct
+					o.ErrSample[t.Kind] = t.Direct + " " + t.Log
 				}
 			}
 		}
